@@ -940,10 +940,19 @@ class Interp:
                 pass
         return out
 
+    @staticmethod
+    def str_consts(v: AV) -> set[str]:
+        """the finitely many strings v can be: its constants, or its alternatives when every one is made of literals only
+        (`f"{name}.jinja"` with name one of three constants)"""
+        out = {c for c in (v.consts or ()) if isinstance(c, str)}
+        if not out and v.alts is not None and v.alts and all(all(p.kind == "lit" for p in alt) for alt in v.alts):
+            out = {"".join(p.text for p in alt) for alt in v.alts}
+        return out
+
     def jinja_call(self, recv: AV, attr: str, args: list[AV], kwargs: dict[str, AV], where: str) -> AV:
         """Environment.get_template(name) / Template.render(**vars): the Python -> template bridge (E4)."""
         if attr == "get_template":
-            names = frozenset(c for c in ((args[0].consts if args else None) or ()) if isinstance(c, str))
+            names = frozenset(self.str_consts(args[0])) if args else frozenset()
             if not names:
                 self.render_log.setdefault("<non-constant template name>", {})
             return AV(types=frozenset({"jinja2.Template"}), consts=names or None)
